@@ -425,6 +425,7 @@ Body(int tid)
   static char labels[kMaxT][32];
   auto &g = GH->g[tid];
   int step = 0;
+  bool quit = false;
   for (const auto &op : tp.ops) {
     snprintf(labels[tid], sizeof labels[tid], "%s#%d", op.text.c_str(), step);
     vs::SetCall(labels[tid]);
@@ -708,11 +709,15 @@ Body(int tid)
         }
         break;
       }
+      case 'Y':  // the thread returns from its body now (its guard, if any, dies with it; thread-exit clean-up follows)
+        quit = true;
+        break;
       default:
         vs::ViolateFatal("INTERNAL", "BAD-OP", "unknown op " + op.text);
     }
     if (op.turn >= 0) W->turn.store(op.turn + 1, std::memory_order_release);
     ++step;
+    if (quit) break;
   }
   vs::SetCall("script-end");
   {
@@ -1039,40 +1044,64 @@ Family(const std::string &f)
 
 // sequential histories (C20): breadth-first over {enter_i, leave_i, F, F254} up to `depth`
 struct Hist {
-  std::vector<int> ops;  // 0:enter0 1:leave0 2:enter1 3:leave1 4:F 5:B254
+  std::vector<int> ops;  // 0:enter0 1:leave0 2:enter1 3:leave1 4:F 5:B254 6:exit0 7:exit1
 };
 
+// One thread per incarnation of a worker role: an exit event (Y) ends the role's current thread at that turn, a
+// later enter of the role is performed by a fresh thread with the same probe start (it inherits the ID slot).
+// Threads that have not exited wait for the end of the history (a final gated no-op), so a guard that the history
+// leaves open really stays open while the remaining events happen.
 std::string
 HistProgram(const Hist &h)
 {
-  std::string w[2] = {"W0:", "W1:"};
+  std::vector<std::string> w[2];
+  bool open_thread[2] = {false, false};
   std::string k = "K:";
   int turn = 0;
+  auto cur = [&](int r) -> std::string & {
+    if (!open_thread[r]) {
+      w[r].push_back("W0:");  // identical probe starts: the roles collide on the ID table as well
+      open_thread[r] = true;
+    }
+    return w[r].back();
+  };
   for (int o : h.ops) {
     std::string suffix = "@" + std::to_string(turn++) + " ";
     switch (o) {
       case 0:
-        w[0] += "L" + suffix;
+        cur(0) += "L" + suffix;
         break;
       case 1:
-        w[0] += "D" + suffix;
+        cur(0) += "D" + suffix;
         break;
       case 2:
-        w[1] += "C" + suffix;
+        cur(1) += "C" + suffix;
         break;
       case 3:
-        w[1] += "D" + suffix;
+        cur(1) += "D" + suffix;
         break;
       case 4:
         k += "F" + suffix;
         break;
-      default:
+      case 5:
         k += "B254" + suffix;
+        break;
+      default:
+        cur(o - 6) += "Y" + suffix;
+        open_thread[o - 6] = false;
         break;
     }
   }
-  std::string p = "k=0;" + w[0];
-  if (kCap >= 2) p += "| " + w[1];
+  for (int r = 0; r < 2; ++r)
+    if (open_thread[r]) w[r].back() += "P@" + std::to_string(turn++) + " ";
+  std::string p = "k=0;";
+  bool first = true;
+  for (int r = 0; r < 2; ++r)
+    for (auto &t : w[r]) {
+      p += (first ? "" : "| ") + t;
+      first = false;
+    }
+  if (first) p += "W0:";
   p += "| " + k;
   return p;
 }
@@ -1147,33 +1176,48 @@ main(int argc, char **argv)
       Hist h;
       size_t epoch;
       long pin[2];
+      int life[2];     // 0: role never used, 1: its thread is registered and alive, 2: its thread has exited
+      int exits[2];    // exit events used (at most one per role and history)
+      std::string reg; // order in which role threads registered with the manager (hidden state of any slot bookkeeping)
     };
-    std::vector<St> frontier = {St{Hist{}, kInitial, {-1, -1}}};
+    std::vector<St> frontier = {St{Hist{}, kInitial, {-1, -1}, {0, 0}, {0, 0}, ""}};
     std::set<std::string> seen;
     size_t states = 1, transitions = 0;
     for (int d = 1; d <= depth; ++d) {
       std::vector<St> next;
       std::vector<vs::Job> jobs;
       for (auto &s : frontier) {
-        for (int o = 0; o < 6; ++o) {
-          if ((o == 2 || o == 3) && kCap < 2) continue;
+        for (int o = 0; o < 8; ++o) {
+          const int r = o < 4 ? o / 2 : (o >= 6 ? o - 6 : -1);
+          if (r == 1 && kCap < 2) continue;
           St n = s;
           if (o == 0 || o == 2) {
-            if (n.pin[o / 2] >= 0) continue;
-            n.pin[o / 2] = static_cast<long>(n.epoch);
+            if (n.pin[r] >= 0) continue;
+            n.pin[r] = static_cast<long>(n.epoch);
+            if (n.life[r] != 1) {
+              n.life[r] = 1;
+              n.reg += static_cast<char>('0' + r);
+            }
           } else if (o == 1 || o == 3) {
-            if (n.pin[o / 2] < 0) continue;
-            n.pin[o / 2] = -1;
+            if (n.pin[r] < 0) continue;
+            n.pin[r] = -1;
+          } else if (o >= 6) {
+            if (n.life[r] != 1 || n.exits[r] != 0) continue;
+            n.exits[r] = 1;
+            n.life[r] = 2;
+            n.pin[r] = -1;  // a guard still open dies with its thread
           } else {
             n.epoch += (o == 4) ? 1 : 254;
           }
           n.h.ops.push_back(o);
           ++transitions;
-          // canonical key: the future behaviour depends on (epoch, pins, node chain); the node chain is a
-          // function of the history of (epoch, pins) at forward time, so key on the sequence of forwards' pins
-          // coarsely: epoch + pins + set of 256-ranges ever pinned across a retirement. We keep it simple and
-          // sound: key = epoch, pins, and the multiset of pinned ranges seen at every boundary crossing.
-          std::string key = std::to_string(n.epoch) + ":" + std::to_string(n.pin[0]) + ":" + std::to_string(n.pin[1]) + ":";
+          // canonical key: what the future can depend on. Specified state: epoch, pins, node chain (a function of
+          // the history of (epoch, pins) at forward time, derived by replaying the reference model). Hidden state a
+          // correct or incorrect implementation may keep per thread slot: which role threads have registered, in
+          // which order, and which of them have exited -- merged states must have the same futures, so these are
+          // part of the key although the specification does not mention them.
+          std::string key = std::to_string(n.epoch) + ":" + std::to_string(n.pin[0]) + ":" + std::to_string(n.pin[1]) + ":" + n.reg + ":" +
+                            std::to_string(n.life[0]) + std::to_string(n.life[1]) + ":";
           {
             // replay the model to derive the node chain
             size_t e = kInitial;
@@ -1184,6 +1228,8 @@ main(int argc, char **argv)
                 pin[x / 2] = static_cast<long>(e);
               } else if (x == 1 || x == 3) {
                 pin[x / 2] = -1;
+              } else if (x >= 6) {
+                pin[x - 6] = -1;
               } else {
                 int cnt = (x == 4) ? 1 : 254;
                 for (int c = 0; c < cnt; ++c) {
